@@ -195,6 +195,42 @@ def r07_3_array_element(ctx):
                 vs, nx = f"$binop:Add({vs}, Int(2))", f"$binop:Add({nx}, Int(2))"
             want = f"decode(ARR, start_index={vs}, end_index=If($cmp:Eq($binop:Add(IDX, Int(1)), LENGTH)).Then(Len(ARR)).Else({nx}))"
         ctx.check(txt == want, "R07.3", construct, f"gives {txt[:200]}; ARC-4 addressing is {want[:200]}", f.where, fact={"result": txt[:160]})
+        # the same element addressed with a compile-time constant index (an Int instance): whatever shortcut the code takes
+        # for constants, element k of the N still ends where element k + 1 starts, and only the last one at the end
+        if kind == "dynamic" and not dyn_len:
+            import re as _re
+
+            N = shape[2]
+            for k in range(N):
+                idx = Sym(f"Int({k})", attrs={"$isa": {"Int", "LeafExpr", "Expr"}, "value": k})
+                ln = Sym(f"Int({N})", attrs={"$isa": {"Int", "LeafExpr", "Expr"}, "value": N})
+                arr_k = Sym("array", methods={"type_spec": lambda aspec=aspec: aspec, "encode": lambda: Rec("name", "ARR"), "length": lambda ln=ln: ln})
+                self_k = Sym("self", attrs={"array": arr_k, "index": idx}, methods={"produced_type_spec": lambda aspec=aspec: aspec.methods["value_type_spec"]()})
+                ck = f"{construct}[constant index {k} of {N}]"
+                try:
+                    vk, _ = W.run(f.node, {"self": self_k, "output": _output(W, elem_shape)}, None, f.fq)
+                except Raised as r:
+                    ctx.bad("R07.3", ck, f"raises {r.exc_text[:60]}", f.where)
+                    continue
+                tk = strip(vk)
+                m = _re.fullmatch(r"decode\(ARR, start_index=(.*?)(?:, end_index=(.*))?\)", tk)
+                bi_k = f"$binop:Mult(Int(2), Int({k}))"
+                want_start = f"ExtractUint16(ARR, {bi_k})"
+                want_end = "END" if k == N - 1 else f"ExtractUint16(ARR, $binop:Add({bi_k}, Int(2)))"
+                got_end = None
+                if m:
+                    e_ = m.group(2)
+                    if e_ is None or e_ == "Len(ARR)":
+                        got_end = "END"
+                    else:
+                        mi = _re.fullmatch(r"If\(\$cmp:Eq\(\$binop:Add\(Int\((\d+)\), Int\(1\)\), Int\((\d+)\)\)\)\.Then\((.*?)\)\.Else\((.*)\)", e_)
+                        if mi:
+                            chosen = mi.group(3) if int(mi.group(1)) + 1 == int(mi.group(2)) else mi.group(4)
+                            got_end = "END" if chosen == "Len(ARR)" else chosen
+                        else:
+                            got_end = e_
+                ok_k = bool(m) and m.group(1) == want_start and got_end == want_end
+                ctx.check(ok_k, "R07.3", ck, f"gives {tk[:160]}: the element runs from {m.group(1) if m else '?'} to {got_end}; ARC-4 addressing is from {want_start} to {want_end}", f.where, fact={"result": tk[:120]})
         # bounds: which paths necessarily fail for IDX >= length?
         if kind == "static":
             ctx.ok("R07.3", construct + ":out-of-range", "a byte-granular extract of `stride` bytes at stride*i(+2) lies outside the encoding for i >= length, and extract fails on out-of-range access", f.where)
